@@ -24,6 +24,10 @@ def run(res, tier, seed):
     T["host"].run(OPS, seed, 500 if quick else 4000, 130)
     T["host"].run(OPS, seed + 1, 50 if quick else 400, 260 if quick else 600)
     T["stress"].run(OPS, seed + 2, 200 if quick else 1500, 150 if quick else 300, rec_bias=0.5)
+    # B (and A) as views into wider matrices holding other data: the padding-row test and the clearing of undefined rows
+    # must look at / touch the view's columns only (the parent is dumped too)
+    T["host"].run(OPS, seed + 6, 60 if quick else 400, 130, W=lambda role: {"fill": "rand"} if role == "B" else None)
+    T["host"].run(OPS, seed + 7, 25 if quick else 200, 130, W=lambda role: {"fill": "rand"})
 
 
 def replay(res, path):
